@@ -9,8 +9,11 @@ import collections, json, multiprocessing, os, re, shutil, sys, tempfile, time, 
 sys.path.insert(0, os.path.join(os.path.dirname(os.path.abspath(__file__)), '..'))
 import common
 import e2e_common as E
+import pipeline_common as P
 from gen import hostile as HG
 from gen import catalog as CAT
+from gen import cfmt as GC
+from gen import pyfmt as GP
 
 LINE_RE = re.compile(r'\A[EWIP]: [^\n]*\Z')
 HANG_S = 90            # wall seconds after which one file (≤ 256 KiB) counts as a hang
@@ -136,10 +139,51 @@ def make_opts(rng):
         o['subdir'] = rng.choice(['pl/LC_MESSAGES', 'de_DE/LC_MESSAGES', 'xx/LC_MESSAGES', 'LC_MESSAGES', 'None/LC_MESSAGES', 'po', 'pl', 'sr@latin/LC_MESSAGES'])
     return o
 
+def hexs(s):
+    return '.'.join('%x' % ord(c) for c in s) if s else '-'
+
+def model_streams(chk, rng):
+    """correspondence of the pipeline model with the real code (scripted collaborators): see pipeline_common.py"""
+    big = chk.thorough
+    try:
+        if chk.lean is not None and chk.lean.translation.get('excmap') == 'changed':
+            with common.Lock():
+                rc, log = common.lake_build(['driver'])
+            if rc != 0:
+                chk.broken.append({'kind': 'correspondence', 'stream': 'pipeline-*', 'problem': 'driver could not be rebuilt from the regenerated exception map'})
+                return
+        data = P.excmap_json()
+        if data is None:
+            chk.broken.append({'kind': 'correspondence', 'stream': 'pipeline-*', 'problem': 'exception map could not be extracted'})
+            return
+        with tempfile.TemporaryDirectory(prefix='i18n-verif-c01p.') as wd:
+            lines, impl = P.dispatch_cases(data)
+            chk.stream('pipeline-dispatch', lines, impl)
+            lines = P.gen_check_lines(rng, 3000 if big else 900, data['classes'])
+            chk.stream('pipeline-check', lines, [P.impl_check(l, wd) for l in lines])
+            lines = [l for l in P.gen_main_lines(rng, 400 if big else 70)]
+            impl = [P.impl_main(l) for l in lines]
+            keep = [i for i, o in enumerate(impl) if o is not None]
+            chk.stream('pipeline-main', [lines[i] for i in keep], [impl[i] for i in keep])
+            lines = P.gen_file_lines(rng, 600 if big else 150)
+            chk.stream('pipeline-file', lines, [P.impl_file(l, wd) for l in lines])
+            n = 20000 if big else 2500
+            cs = GC.boundary_strings() + GC.context_strings() + [GC.gen_string(rng) if rng.random() < 0.7 else GC.mutate(rng, GC.gen_string(rng)) for _ in range(n)] + HG.CFMT
+            cs = [x for x in cs if x and len(x) < 3000]
+            chk.stream('pipeline-cstring', ['pipeline cstring ' + hexs(x) for x in cs], [P.impl_string('c', x) for x in cs])
+            ps = GP.boundary_strings() + GP.context_strings() + [GP.gen_string(rng) if rng.random() < 0.7 else GP.mutate(rng, GP.gen_string(rng)) for _ in range(n)] + HG.PYFMT
+            ps = [x for x in ps if x and len(x) < 3000]
+            chk.stream('pipeline-pystring', ['pipeline pystring ' + hexs(x) for x in ps], [P.impl_string('python', x) for x in ps])
+    except common.Infra:
+        raise
+    except Exception as exc:
+        chk.broken.append({'kind': 'correspondence', 'stream': 'pipeline-*', 'problem': 'harness failed on the real code: %r' % (exc,)})
+
 def main():
     chk = common.Check('C01')
-    chk.prove('I18n.Props.C01', generated=())
+    chk.prove('I18n.Props.C01', generated=('excmap',))
     rng = chk.rng
+    model_streams(chk, rng)
     mult = 3 if chk.broken else 1
     n_files = (30000 if chk.thorough else 4000) * mult
     workers = 4
